@@ -1321,6 +1321,8 @@ ORDER_WITNESS = ('from typing import Generic, TypeVar\n'
 	'class G(Generic[T]): ...\n')
 
 
+LIB_CLASSES = 'rogw.tranp.compatible.libralies.classes'
+
 REAL_MODULES = [
 	# all of these load on the pinned tree (a load failure is reported as a finding)
 	'example.json',
@@ -1722,6 +1724,25 @@ def _check_module(ld: Loaded, mod: str, replay: dict[str, Any], out: list[Findin
 	extra = [m for m in module_keys(new) if m != mod and new.completed(m)]
 	if extra:
 		found('completed:other-module', f'{extra[:3]} count as completed although only {mod} was imported', {})
+	# the same round trip on the path the application takes: the table that "holds only the other modules" is the whole table after
+	# unload(mod) (db.py:144-156); it must be the table built above (same keys, same order, no completed mark) and restore the same entries
+	stage[0] = 'unload'
+	alt = SymbolDB()
+	for k, s in db.items():
+		alt[k] = s
+	if db.completed(mod):
+		alt.on_complete(mod)
+	alt.unload(mod)
+	others = [k for k in db.keys() if k.split('#')[0] != mod]
+	if list(alt.keys()) != others or alt.has_module(mod) or alt.completed(mod) or [k for k, _ in alt.items(mod)]:
+		found('unload:leaves-or-removes', f'unload({mod}) leaves keys {[k for k in alt.keys() if k not in others][:3]}, removes {[k for k in others if k not in alt][:3]}, has_module={alt.has_module(mod)}, completed={alt.completed(mod)}', {})
+	else:
+		stage[0] = 'import-after-unload'
+		alt.import_json(ser, data)
+		after_alt = {k: describe(s) for k, s in alt.items(mod)}
+		if after_alt != after or list(alt.keys()) != list(new.keys()) or alt.completed(mod) != new.completed(mod):
+			k = next((k for k in after if after_alt.get(k) != after[k]), '?')
+			found('unload:import-differs', f'import into the unloaded table gives {str(after_alt.get(k))[:200]} for {k}, import into the table of the other modules {str(after.get(k))[:200]}', {'key': k})
 	# a second export of the restored module writes the same rows (type, node, decl, origin, via, paths); the row order may differ
 	stage[0] = 're-export'
 	again_rows = json.loads(json.dumps(new.to_json(ser, mod), separators=(',', ':')))
@@ -1813,7 +1834,19 @@ def real_pass(ctx: Ctx) -> tuple[list[Stream], SearchResult]:
 				if inv_ops and ((ld.kind in ('fixed', 'corpus') and (ctx.thorough or n_tables % 3 == 0)) or (ctx.thorough and ld.name == REAL_MODULES[0]) or (ld.kind != 'real' and n_tables % 12 == 0)):
 					tbl_ops = real_table_ops(db)
 					keep = slice(-2, None) if ld.kind == 'real' else slice(None)
-					inv_cases.append(({'kind': ld.kind, 'entries': len(db), 'name': ld.name}, tbl_ops + inv_ops[keep], ['ok'] * len(tbl_ops) + inv_real[keep]))
+					more_ops: list[str] = []
+					more_real: list[str] = []
+					if not inv_cases and LIB_CLASSES in mods:
+						# the library module `classes` (338 entries: too slow for the kernel, so the generated table of C14.shipped_* leaves it
+						# out) as M, once per run, on the first table that goes to the driver
+						try:
+							inv = invariants_of(db, db.to_json(ser, LIB_CLASSES), LIB_CLASSES)
+							more_ops.append(f't.inv\t{hx(LIB_CLASSES)}\t{class_ranks(db, LIB_CLASSES)}')
+							more_real.append(f"Loaded={'true' if inv['Loaded'] else 'false'} SymOK={'true' if inv['SymOK'] else 'false'} ViaOK={'true' if inv['ViaOK'] else 'false'}")
+							inv_hist[f"library-classes:SymOK={int(inv['SymOK'])},Loaded={int(inv['Loaded'])},ViaOK={int(inv['ViaOK'])}"] += 1
+						except Exception as e:  # noqa: BLE001
+							inv_hist[f'invariants:raises:{exc_enum(e)}'] += 1
+					inv_cases.append(({'kind': ld.kind, 'entries': len(db), 'name': ld.name}, tbl_ops + inv_ops[keep] + more_ops, ['ok'] * len(tbl_ops) + inv_real[keep] + more_real))
 				n_tables += 1
 				# correspondence: order
 				order_mods: list[str | None] = [*(own if ld.kind != 'real' else own[-3:])]
@@ -1866,11 +1899,13 @@ STATEMENTS = {
 	'C14.import_pop_counterexample': 'an import that consumes the attribute paths of its input leaves rows that import to other entries (regression of a seeded mutation; import_idem is the positive statement)',
 	'C14.export_history_independent': 'to_json is a function of the entries of the table alone (not of the completed marks; the model has no other state): same entries, same rows',
 	'C14.state_is_modelled': 'GENERATED from the AST of db.py / serializer.py on every run: SymbolDB has exactly __paths, __items, __completed; __paths and __items are written by the same methods; only __setitem__, on_complete, unload, import_json write fields; _order_keys_recursive changes only its two out-parameters; the serializer writes no field and changes no argument in place (a memo / cache / consumed argument breaks the translator or this theorem)',
+	'C14.row_schema_generated': "GENERATED from the AST of serializer.py / sequence.py on every run: serialize writes the class tag and exactly the fields of the model's two row shapes, deserialize reads exactly those back, each value is the expression the model cites (DSNs, origin = types.fullyname, via = via.types.fullyname, attrs over seqs.expand), the class test, the via choice, the depth sort key and the flattening guard are the ones modelled (a row key added / dropped / renamed, another sort key or guard breaks the translator or this theorem)",
 	'C14.export_paths_canonical': 'every key of an exported attrs dict is a non-empty path whose dotted spelling consists of canonical decimals and decodes to the path',
 	'C14.canonical_roundtrip': 'on canonical decimals (ASCII digits, no sign, no leading zero) int and str are inverse',
 	'C14.import_frame': 'import_json changes no entry under a key it is not given a row for (entries of the other modules) and removes none',
 	'C14.rt_exact': 'under SymOK, the order law and ViaOK (a class entry is its own via; a via key names an entry of that very type): after export of M and import into the table of the other modules EVERY key has exactly the entry it had — types, node, decl, via, attribute forest — and each restored entry serializes to the row it was imported from (a second export writes the same rows)',
 	'C14.rt_loaded_exact': 'rt_exact with the order law supplied by C14.order from Loaded',
+	'C14.rt_unload_exact': 'the application path: unload(M) (db.py:144-156) gives the table of the other modules, and importing the export of M into it restores every key exactly and completes the modules of the imported keys — for every Loaded table with SymOK and ViaOK',
 	'C14.shipped_via': 'ViaOK holds for every module of the GENERATED library table — decided by the kernel',
 	'C14.shipped_rt_exact': 'for the shipped library modules, without hypotheses: the table after export and import is the table before, key by key and field by field (via included), and a second export writes the same rows',
 	'C14.shipped_invariants': 'for every module of the GENERATED library table (translate/gen_symbol_tables.py, re-generated from the real SymbolDB on every run): Loaded and SymOK hold — decided by the kernel',
@@ -1892,14 +1927,15 @@ STATEMENTS = {
 def run(ctx: Ctx) -> int:
 	translate_ok, translate_msg = True, ''
 	try:
-		from translate import gen_symbol_state, gen_symbol_tables
+		from translate import gen_symbol_rows, gen_symbol_state, gen_symbol_tables
 		with time_limit(240):
 			ctx.generated_tables.extend(gen_symbol_state.generate())
+			ctx.generated_tables.extend(gen_symbol_rows.generate())
 			ctx.generated_tables.extend(gen_symbol_tables.generate())
 	except CaseTimeout:
 		translate_ok, translate_msg = False, 'translators gen_symbol_state / gen_symbol_tables: loading the library modules takes more than 240s'
 	except Exception as e:  # noqa: BLE001
-		translate_ok, translate_msg = False, f'translator gen_symbol_state / gen_symbol_tables: {type(e).__name__}: {exc_text(e)}'
+		translate_ok, translate_msg = False, f'translator gen_symbol_state / gen_symbol_rows / gen_symbol_tables: {type(e).__name__}: {exc_text(e)}'
 	proof = common.prove(ctx, PROP, leanchecker=ctx.thorough)
 	with ctx.timed('correspondence'):
 		streams = [stream_expand_stub(ctx), stream_identity_stub(ctx), stream_dsn(ctx), stream_rebuild_stub(ctx), stream_order_stub(ctx), stream_table_stub(ctx)]
